@@ -227,6 +227,7 @@ func main() {
 		gcmMessages(r, a, si)
 	}
 	srand.Reader = saved
+	secretLengths(r)
 	garbage(r, a)
 	randFaults(r, a)
 	srand.Reader = &saltReader{salt: salts[1]}
